@@ -122,8 +122,11 @@ CHECKS = {
          "The premise about the guess is itself a theorem on the main path: C12_guess_premise - for every magnitude of at most 1074 bits (324 digits) the model of make_inv_guess (LN_2 * exp2(-bits) in f64 through "
          "the rounding primitive, subnormal results included, converted exactly by the from-float model of C14) is a positive decimal within 94% of 1/x; C12_inverse_total_main_path then states termination and "
          "accuracy with no premise. Modelled rather than verified: exp2 of an integer is the exact power of two and the f64 product is correctly rounded (the driver compares the modelled guess with the one the real "
-         "code hands over through a hook on every such input: tag +guess-model-differs, never seen). For longer magnitudes the back-up path (libm exp10, f32) is not modelled: there the premise |1 - x g| <= 94/100 is "
-         "observed on every generated input (tag +guess-beyond-94-percent, never seen). Trusted: Lean kernel, extractor, harness/driver.",
+         "code hands over through a hook on every such input: tag +guess-model-differs, never seen). For longer magnitudes (the back-up path: bits*LOG10_2 in f64, split into integer and fraction, 10^-fraction through libm exp10, times LN_2, as f32) "
+         "C12_backup_guess_premise proves the premise up to 2^32 bits under one stated assumption about the float kernel - the f32 factor (LN_2 * exp10(-frac)) as f32 is within 2% of ln2 * 10^-frac (libm is not modelled): "
+         "the f64 product with its two roundings, the split, the scale bookkeeping, and that 10^-(int+frac) equals 2^-bits up to 0.7% (log10 2 enclosed between its convergents 97879/325147 and 1838395/6107016 "
+         "by two kernel-evaluated power inequalities, Mathlib's Real.log/exp) are theorems; the driver recomputes that model from the f32 factor (recomputed by the harness with the same libm) and compares it with the guess the real code hands over "
+         "(tag +guess-backup-model-differs, never seen), and the premise |1 - x g| <= 94/100 itself is also observed on every generated input (tag +guess-beyond-94-percent, never seen). Trusted: Lean kernel, extractor, harness/driver.",
          "Lean 4 proof (termination and accuracy of the Newton iteration with rounding) + exact per-input test + differential correspondence", "DESIGN.md §5 C12"),
  "C13": ("Lean model of exp (series loop with exact powers/factorials, impl_division per term - whose correct rounding is the theorem of C08 -, convergence test on the value "
          "trimmed to precision+5 digits, e^-x = 1/e^x). Kernel-checked against Mathlib's Real.exp, for EVERY non-zero decimal with |x| <= 1000 (the range the property quantifies over), every precision >= 1 "
